@@ -66,10 +66,11 @@ theorem free_once_generated (fp : FreePair) (hfp : fp ∈ Gen.freePairs) (o : Ob
 API calls (for every environment with `ComposeSpec` and page size ≥ 1), whenever the code reaches one of the
 listed partial operations (its guard holds), the operation's C++ precondition holds -/
 theorem no_partial_op_fails (env : Env) (hps : 0 < env.pageSize) (hrc : ComposeSpec env.recompose)
-    (c0 : Ctx) (h0 : c0.input = [] ∧ c0.caret = 0 ∧ c0.comp.segs = []) (ops : List Op) (site : Site)
+    (c0 : Ctx) (h0 : c0.input = [] ∧ c0.caret = 0 ∧ c0.comp.segs = [] ∧ c0.comp.input = []) (ops : List Op) (site : Site)
     (hg : site.guard env (runOps env c0 ops)) : site.pre env (runOps env c0 ops) := by
   have hinv : Inv (runOps env c0 ops) :=
-    runOps_inv hrc ops ⟨by rw [h0.1, h0.2.1]; exact Nat.le_refl _, by rw [h0.2.2]; exact SegsOK.nil⟩
+    runOps_inv hrc ops ⟨⟨by rw [h0.1, h0.2.1]; exact Nat.le_refl _, by rw [h0.2.2.1]; exact SegsOK.nil⟩,
+      by rw [h0.2.2.2, h0.1]; exact Nat.le_refl _⟩
   generalize runOps env c0 ops = c at hinv hg
   have hc := hinv.caret_le
   cases site with
@@ -102,7 +103,7 @@ theorem no_partial_op_fails (env : Env) (hps : 0 < env.pageSize) (hrc : ComposeS
 
 /-- the same for the concrete Compose port (hypothesis discharged) -/
 theorem no_partial_op_fails_concrete (env : Env) (hps : 0 < env.pageSize) (cfg : SegCfg) (henv : env.recompose = compose cfg)
-    (c0 : Ctx) (h0 : c0.input = [] ∧ c0.caret = 0 ∧ c0.comp.segs = []) (ops : List Op) (site : Site)
+    (c0 : Ctx) (h0 : c0.input = [] ∧ c0.caret = 0 ∧ c0.comp.segs = [] ∧ c0.comp.input = []) (ops : List Op) (site : Site)
     (hg : site.guard env (runOps env c0 ops)) : site.pre env (runOps env c0 ops) :=
   no_partial_op_fails env hps (by rw [henv]; exact compose_spec cfg) c0 h0 ops site hg
 
